@@ -26,21 +26,21 @@ EXTRACT = {
 
 CFG = {
     "level": "proof",
-    "level_text": "Lean 4 theorems over an executable model that follows src/trees/bp.rs. PROVED for every constructor "
-                  "(owned/borrowed, NoSelect/WithSelect/WithCsPoppy at any rate, scalar/SSE4.1 builders), |ws| = ceil(len/64), "
-                  "any stray bits: byte_tables_eq (4 dumped tables = bit scans), rank1_eq, rank0_eq (len < 2^32; u32 block ranks "
-                  "and 9-bit packed offsets shown lossless from WORDS_PER_RANK_BLOCK = 8), excess_eq_wrap / excess_eq, depth_eq "
-                  "(i32-as-usize cast modelled; len < 2^31), is_open_eq, first_child_eq, method_find_open_eq, method_enclose_eq "
-                  "(+parent), storage_strays_variant_irrelevant; free functions find_close_eq (word skipping by "
-                  "word_min_excess_i32, len < 2^31), find_open_eq, enclose_eq (skipping by word_max_excess_rev); block_min_sound; "
-                  "word_summaries_exact (i8 clamp lossless). PARTIAL / NOT PROVED: method find_close / find_close_from "
-                  "(seven-state loop simulation, L1/L2 fold exactness, fuel) - only the guards "
-                  "(method_find_close_guard_partial) and next_sibling / subtree_size relative to it "
-                  "(next_sibling_subtree_size_partial); select1 for WithSelect/WithCsPoppy and select0 "
-                  "(select1_noselect_partial only); SSE4.1 builders = scalar builders (lane model executed and compared on "
-                  "every request, not proved). These are covered by the correspondence and by the driver's model-vs-spec "
-                  "comparison only. Tie: tables and constants regenerated each run, every constructor x select support x build "
-                  "variant diffed against the compiled model, itself cross-checked against the linear-scan spec on every request.",
+    "level_text": "Lean 4 theorems over an executable model that follows src/trees/bp.rs. PROVED, for |ws| = ceil(len/64), any "
+                  "stray bits, owned/borrowed storage, NoSelect/WithSelect/WithCsPoppy at any rate: byte_tables_eq (4 dumped "
+                  "tables = bit scans); rank1_eq, rank0_eq (len < 2^32; u32 block ranks and 9-bit packed offsets lossless from "
+                  "WORDS_PER_RANK_BLOCK = 8), excess_eq_wrap / excess_eq, depth_eq (i32-as-usize cast modelled; len < 2^31), "
+                  "is_open_eq, first_child_eq, method_find_open_eq, method_enclose_eq (+parent) for scalar and SSE4.1 builders; "
+                  "free functions find_close_eq (word skipping), find_open_eq, enclose_eq; block_min_sound; word_summaries_exact "
+                  "and index_exact (L0/L1/L2 entries = block summaries; i8 clamp, i16 and i32 folds lossless from FACTOR_L1 = "
+                  "FACTOR_L2 = 32); find_close_in_word_fast_eq (byte-table fast path); find_close_from_eq (seven-state loop: "
+                  "invariant + termination measure), method_find_close_eq, next_sibling_subtree_size_eq for the scalar builders "
+                  "(len < 2^31); storage_strays_variant_irrelevant. PARTIAL / NOT PROVED: SSE4.1 builders = scalar builders "
+                  "(simd_reduces_to_scalar_partial reduces the simd-build find_close family to that missing lemma; the lane "
+                  "model is executed and compared with the scalar model and with the simd harness build on every request); "
+                  "select1 for WithSelect / WithCsPoppy and select0 (select1_noselect_partial only) - modelled and compared with "
+                  "the spec by the driver, not proved. Tie: tables and constants regenerated each run, every constructor x select "
+                  "support x build variant diffed against the compiled model, itself cross-checked against the linear-scan spec.",
     "level_note": "Trusts Lean kernel, the table/constant extractor, popcount / select_in_word semantics (C02), the SSE4.1 "
                   "lane semantics written in Model/BP.lean, and the differential harness. NEON builders unreachable on this host.",
     "technique": "Lean 4 proof (decide +kernel for tables, induction for directory / scans) + differential correspondence vs compiled model and spec",
@@ -50,10 +50,13 @@ CFG = {
                    "SuccinctlyVerif/Proof/BPRank.lean", "SuccinctlyVerif/Proof/BPRankEq.lean", "SuccinctlyVerif/Proof/BPNavEq.lean",
                    "SuccinctlyVerif/Proof/BPScan.lean", "SuccinctlyVerif/Proof/BPWord.lean", "SuccinctlyVerif/Proof/BPEnclose.lean",
                    "SuccinctlyVerif/Proof/BPMethods.lean", "SuccinctlyVerif/Proof/BPClose.lean", "SuccinctlyVerif/Proof/BPClose2.lean",
-                   "SuccinctlyVerif/Proof/BPClose3.lean", "SuccinctlyVerif/Proof/BPSibling.lean",
+                   "SuccinctlyVerif/Proof/BPClose3.lean", "SuccinctlyVerif/Proof/BPSibling.lean", "SuccinctlyVerif/Proof/BPIndex.lean",
+                   "SuccinctlyVerif/Proof/BPIndex2.lean", "SuccinctlyVerif/Proof/BPFcf.lean", "SuccinctlyVerif/Proof/BPFcf2.lean",
+                   "SuccinctlyVerif/Proof/BPFcf3.lean", "SuccinctlyVerif/Proof/BPFast.lean", "SuccinctlyVerif/Proof/BPFast2.lean",
                    "SuccinctlyVerif/Model/BP.lean", "SuccinctlyVerif/Spec/BPNav.lean"],
     "required_theorems": ["SV.Props.C04.byte_tables_eq", "SV.Props.C04.rank1_eq", "SV.Props.C04.find_close_eq",
-                          "SV.Props.C04.find_open_eq", "SV.Props.C04.enclose_eq"],
+                          "SV.Props.C04.find_open_eq", "SV.Props.C04.enclose_eq", "SV.Props.C04.find_close_from_eq",
+                          "SV.Props.C04.index_exact"],
     "generated": ["C04:", "tables"],
     "allow_bv_decide": False,
     "nontrivial": _c04_nontrivial,
